@@ -11,6 +11,15 @@ NOTES = {
     "C17-m3": "strips NUL from cache-relative paths in http.rs: needs the http feature and a module name such as '.\\0.'; detected by C16's hostile-name scenarios (writes outside cache/)",
 }
 
+def base_of(sid):
+    if sid in ("C04-r2m1", "C04-r2m2", "C16-r2m1", "C16-r2m2"):
+        return "f4dbe85"
+    if "-r2" in sid:
+        return "26537ed"
+    if sid in ("C01-m3", "C02-m1", "C04-m2"):
+        return "d8a0445"
+    return "0c877d2"
+
 def section(text, title_re):
     m = re.search(r"^#+\s*" + title_re + r".*?$\n(.*?)(?=^#+\s|\Z)", text, re.S | re.M | re.I)
     return re.sub(r"\s+", " ", m.group(1)).strip()[:900] if m else ""
@@ -30,9 +39,10 @@ def main():
             "id": sid, "property": prop, "summary": title, "files_changed": files,
             "needs_to_manifest": section(readme, r"What is needed") or section(readme, r"(When|Conditions|Trigger)"),
             "breaks": section(readme, r"Which part of"),
-            "origin": "written by a fresh sub-agent that was given only the text of %s and a scratch worktree of /repo at the pinned commit 0c877d2" % prop,
+            "origin": "written by a fresh sub-agent (round %s) that was given only the text of %s and a scratch worktree of /repo at commit %s" % ("2" if "-r2" in sid else "1", prop, base_of(sid)),
+            "base_commit": base_of(sid),
             "confirmed_by_me": None if confirm is None else {
-                "how": "tools/confirm_seed.sh in scratch worktree /tmp/wt-confirm at 0c877d2: demo test without the change, with the change, then cargo test --workspace --no-fail-fast --offline with the change",
+                "how": "tools/confirm_seed.sh in scratch worktree /tmp/wt-confirm at the seed's base commit: demo test without the change, with the change, then cargo test --workspace --no-fail-fast --offline with the change",
                 "demo_without_change": confirm.get("demo_without_change"), "demo_with_change": confirm.get("demo_with_change"),
                 "suite_failures_with_change": confirm.get("suite_failures_with_change"), "suite_failures_baseline": confirm.get("suite_failures_baseline"),
                 "confirmed": confirm.get("confirmed")},
